@@ -22,6 +22,9 @@ type Ent struct {
 	// (beyond year 2262). The entry must stay visible for the whole case; what GetWithExpiration /
 	// GetWithTTL report for it is not pinned.
 	Far bool
+	// S: the clock reading the expiry was stamped from (0 = no expiry or unknown). Ticking-clock mode only:
+	// a remaining lifetime can never be computed from a reading older than this one.
+	S int64
 }
 
 // M is the reference model: a TTL cache over keys 0..len(Ents)-1 plus an
@@ -96,6 +99,10 @@ func (m *M) Hash() string {
 		b = append(b, tmp[:4]...)
 		binary.LittleEndian.PutUint64(tmp[:], uint64(e.E))
 		b = append(b, tmp[:]...)
+		if m.Tick {
+			binary.LittleEndian.PutUint64(tmp[:], uint64(e.S))
+			b = append(b, tmp[:]...)
+		}
 	}
 	return string(b)
 }
@@ -190,7 +197,18 @@ func errf(f string, a ...interface{}) error { return fmt.Errorf(f, a...) }
 
 func (m *M) store(k, v int, d int64) {
 	e, far := m.exp2(d)
-	m.Ents[k] = Ent{V: v, E: e, Phys: Present, Far: far}
+	m.Ents[k] = Ent{V: v, E: e, Phys: Present, Far: far, S: m.stampBase(e)}
+}
+
+// stampBase: the clock reading an expiry computed now is based on (0 when there is no expiry).
+func (m *M) stampBase(e int64) int64 {
+	if e == 0 {
+		return 0
+	}
+	if m.StampNow != 0 {
+		return m.StampNow
+	}
+	return m.Now
 }
 
 func (m *M) touch(e *Ent) {
@@ -293,7 +311,17 @@ func (m *M) Step(o *Op, r *Res) error {
 				case o.K == CGetTTL:
 					want := NoExpiration
 					if e.E != 0 {
-						want = e.E - m.Now
+						rd := m.Now
+						if m.Tick && m.StampNow != 0 {
+							// ticking clock: the remaining time is computed from one of the call's clock reads
+							// (the checker tries each); the entry did not exist before the reading its expiry
+							// was stamped from, so an older reading reports more than the entry ever had
+							rd = m.StampNow
+							if e.S != 0 && rd < e.S {
+								return errf("reported TTL %d is the time remaining at clock reading %d, before the reading %d the entry's expiry was stamped from (more than the entry ever had)", r.T, rd, e.S)
+							}
+						}
+						want = e.E - rd
 					}
 					if r.T != want {
 						return errf("reported TTL %d, expected %d", r.T, want)
@@ -373,6 +401,7 @@ func (m *M) Step(o *Op, r *Res) error {
 				}
 			}
 			e.E, e.Far = m.exp2(o.D)
+			e.S = m.stampBase(e.E)
 		} else {
 			if chk {
 				if err := wantAbsent(r); err != nil {
